@@ -41,17 +41,17 @@ import (
 // ---- configuration
 
 type plClient struct {
-	Name      string
-	IPs       []string
+	Name string
+	IPs  []string
 	// Subnets identify the client by CIDR; an address belongs to the client
 	// with the most specific subnet containing it (exact addresses first).
-	Subnets   []string
-	UseOwn    bool
-	Filtering bool
-	SB, Par   bool
-	UseOwnSvc bool
-	Svcs      []string
-	SvcPaused bool
+	Subnets    []string
+	UseOwn     bool
+	Filtering  bool
+	SB, Par    bool
+	UseOwnSvc  bool
+	Svcs       []string
+	SvcPaused  bool
 	SafeSearch bool
 	Tags       []string // sorted
 }
@@ -86,18 +86,25 @@ type plCfg struct {
 	// (plWeeklyZoned); SvcPaused still says what the schedule yields now.
 	SvcZoned bool
 	svcZone  string
-	SBHost       string
-	ParHost      string
-	Custom       []*vfRule // block list id 0 (custom rules)
-	Block        []*vfRule // block list id 10
-	Allow        []*vfRule // allow list id 20
-	SBHosts      []string
-	ParHosts     []string
-	Clients      []plClient
+	SBHost   string
+	ParHost  string
+	Custom   []*vfRule // block list id 0 (custom rules)
+	Block    []*vfRule // block list id 10
+	Allow    []*vfRule // allow list id 20
+	SBHosts  []string
+	ParHosts []string
+	Clients  []plClient
 	// CacheOn switches the dnsproxy response cache on (used only by the
 	// repeat mode: the model has no cache, it states that a repeated
 	// question gets the verdict of a fresh one).
 	CacheOn bool
+	// DNSSEC is the enable_dnssec switch (round 3): the AD bit is set on
+	// every upstream request and cleared from answers for clients that asked
+	// with neither AD nor DO.  Not an input of the model: the compared
+	// observables must not depend on it (nor on the AD / DO bits of the
+	// request and the AD bit of the upstream's answer); the AD rule itself
+	// is checked by plADMonitor.  Never together with CacheOn.
+	DNSSEC bool
 
 	// round 2
 	Rewrites   []plRewrite   // legacy rewrites
@@ -414,7 +421,7 @@ func (c *plCfg) Desc() map[string]any {
 		"ip4": c.IP4.String(), "ip6": c.IP6.String(), "ttl": c.TTL, "aaaa_disabled": c.AAAADisabled,
 		"blocked_services": c.Svcs, "services_paused": c.SvcPaused, "services_schedule_zone": c.svcZone,
 		"custom_rules": vfRuleTexts(c.Custom), "block_list": vfRuleTexts(c.Block), "allow_list": vfRuleTexts(c.Allow),
-		"sb_hosts": c.SBHosts, "parental_hosts": c.ParHosts, "clients": c.Clients, "proxy_cache": c.CacheOn,
+		"sb_hosts": c.SBHosts, "parental_hosts": c.ParHosts, "clients": c.Clients, "proxy_cache": c.CacheOn, "dnssec": c.DNSSEC && !c.CacheOn,
 		"sb_block_host": c.SBHost, "parental_block_host": c.ParHost,
 		"rewrites": c.Rewrites, "hosts_file": c.Hosts, "hosts_on": c.HostsOn, "safe_search": c.SafeSearch,
 		"ddr": c.DDR, "ddr_ports": []any{c.DDRDoH, c.DDRDoT, c.DDRDoQ, c.DDRHasIP},
@@ -431,12 +438,17 @@ func (c *plChecker) Check(host string) (block bool, err error) { return c.hosts[
 type plUpstream struct {
 	answer func(q dns.Question) (*dns.Msg, error)
 	calls  []dns.Question
+	// callAD: the AD bit of every upstream request; upAD: the AD bit the
+	// upstream puts on its answers.
+	callAD []bool
+	upAD   bool
 }
 
 var _ upstream.Upstream = (*plUpstream)(nil)
 
 func (u *plUpstream) Exchange(req *dns.Msg) (resp *dns.Msg, err error) {
 	u.calls = append(u.calls, req.Question[0])
+	u.callAD = append(u.callAD, req.AuthenticatedData)
 	m, err := u.answer(req.Question[0])
 	if err != nil {
 		return nil, err
@@ -444,6 +456,7 @@ func (u *plUpstream) Exchange(req *dns.Msg) (resp *dns.Msg, err error) {
 	resp = m.Copy()
 	resp.SetReply(req)
 	resp.Rcode = m.Rcode
+	resp.AuthenticatedData = u.upAD
 	return resp, nil
 }
 func (u *plUpstream) Address() string { return "pl.mock" }
@@ -454,7 +467,7 @@ type plQueryLog struct {
 	adds []*querylog.AddParams
 }
 
-func (l *plQueryLog) Add(p *querylog.AddParams)                         { l.adds = append(l.adds, p) }
+func (l *plQueryLog) Add(p *querylog.AddParams)                       { l.adds = append(l.adds, p) }
 func (l *plQueryLog) ShouldLog(string, uint16, uint16, []string) bool { return true }
 
 type plServer struct {
@@ -475,10 +488,11 @@ type plServer struct {
 	histDesc  []string
 	// last is the observation of the last run.
 	last plObs
+	runs int
 	// lists mode bookkeeping for the branch classes
-	changes       int
-	askedAllowOn  bool
-	wasOff        map[int]bool
+	changes      int
+	askedAllowOn bool
+	wasOff       map[int]bool
 }
 
 // listsClasses: where in a history of list changes the query about to be run sits.
@@ -858,6 +872,7 @@ func plNewServer(t *testing.T, c *plCfg) *plServer {
 			EDNSClientSubnet: &EDNSClientSubnet{Enabled: false},
 			ClientsContainer: EmptyClientsContainer{},
 			AAAADisabled:     c.AAAADisabled,
+			EnableDNSSEC:     c.DNSSEC && !c.CacheOn,
 			CacheSize:        map[bool]uint32{false: 0, true: 1 << 20}[c.CacheOn],
 		},
 		ConfigModified: func() {},
@@ -992,9 +1007,12 @@ func plRRCoq(rr dns.RR) string {
 		}
 		data = vfApp("DHTTPS", vfList("svcparam", ps))
 	default:
-		// the id identifies the record's content; the TTL is a field of its own
+		// the id identifies the record's data; the owner name and the TTL
+		// are fields of their own (a block page's records are delivered
+		// under the client's name)
 		cp := dns.Copy(rr)
 		cp.Header().Ttl = 0
+		cp.Header().Name = "."
 		data = vfApp("DOther", vfN(uint64(h.Rrtype)), vfN(uint64(vfStrHash(cp.String()))))
 	}
 	return vfApp("mkRR", vfBytes(h.Name), vfN(uint64(h.Ttl)), data)
@@ -1087,6 +1105,13 @@ type plObs struct {
 	OrigKept bool
 	Question dns.Question // question of the request after processing
 	ResQName string       // question name inside the delivered message
+	// the DNSSEC bits: of the request as sent (AD, DO), of the upstream's
+	// answers (UpAD), of every upstream request (CallAD), of the delivered
+	// message (ResAD) and as logged (LoggedAD).
+	AD, DO, UpAD bool
+	CallAD       []bool
+	ResAD        bool
+	LoggedAD     bool
 }
 
 func (ps *plServer) run(q *plQuery) (o plObs) {
@@ -1105,6 +1130,16 @@ func (ps *plServer) run(q *plQuery) (o plObs) {
 		return q.Answer, nil
 	}
 	req := createTestMessageWithType(q.Name, q.QType)
+	// the DNSSEC bits vary with the position of the query in the run (not an
+	// input of the model, see plCfg.DNSSEC)
+	ps.runs++
+	bits := vfStrHash(q.Name) + uint32(ps.runs)*7
+	o.AD, o.DO, o.UpAD = bits&1 != 0, bits&2 != 0, bits&4 != 0
+	req.AuthenticatedData = o.AD
+	if o.DO {
+		req.SetEdns0(4096, true)
+	}
+	ps.ups.callAD, ps.ups.upAD = nil, o.UpAD
 	pctx := &proxy.DNSContext{Proto: proxy.ProtoUDP, Req: req, Addr: netip.AddrPortFrom(q.Addr, 5353),
 		IsPrivateClient: q.Private, RequestedPrivateRDNS: q.RDNS}
 	func() {
@@ -1113,6 +1148,8 @@ func (ps *plServer) run(q *plQuery) (o plObs) {
 	}()
 	o.Res = pctx.Res
 	o.Calls = append([]dns.Question{}, ps.ups.calls...)
+	o.CallAD = append([]bool{}, ps.ups.callAD...)
+	o.ResAD = pctx.Res != nil && pctx.Res.AuthenticatedData
 	o.Question = req.Question[0]
 	o.ResQName = q.Name
 	if pctx.Res != nil && len(pctx.Res.Question) > 0 {
@@ -1123,6 +1160,7 @@ func (ps *plServer) run(q *plQuery) (o plObs) {
 		last := ps.ql.adds[len(ps.ql.adds)-1]
 		o.Result = last.Result
 		o.OrigKept = last.OrigAnswer != nil
+		o.LoggedAD = last.AuthenticatedData
 	}
 	ps.last = o
 	return o
@@ -1588,6 +1626,7 @@ func plGenCfg(r *vfRand, targets []string) *plCfg {
 		c.Deadline = 1 + r.Intn(2)
 	}
 	c.AAAADisabled = r.Chance(1, 6)
+	c.DNSSEC = r.Chance(1, 3)
 	c.Custom = vfGenRules(r, 0, 4, targets, false)
 	c.Block = vfGenRules(r, 100, 5, targets, false)
 	if r.Chance(1, 2) {
@@ -1714,7 +1753,6 @@ func plIPsOfResult(res *filtering.Result) (ips []netip.Addr) {
 	}
 	return ips
 }
-
 
 // ---- round 2 generators
 
@@ -1914,7 +1952,6 @@ func plIsDHCPHostQuestion(c *plCfg, q *plQuery) bool {
 	return label != "" && !strings.Contains(label, ".")
 }
 
-
 // ---- round 3: rule lists switched on and off while the server runs
 
 // plGenLists turns a drawn configuration into a lists-mode one: its block
@@ -1981,4 +2018,44 @@ func plRunLists(t *testing.T, out *vfOut, r *vfRand, ps *plServer, steps int, ge
 		ps.recordAsk(q, &ps.last)
 	}
 	out.Emit(ps.historyCase())
+}
+
+// ---- round 3: the DNSSEC switch
+
+// plADMonitor states the AD-bit rule (RFC 6840 section 5.8 as the server
+// applies it) directly on what was observed; classes for the summary.
+func plADMonitor(c *plCfg, o *plObs) (ok bool, msg string, classes []string) {
+	if !c.DNSSEC || c.CacheOn || o.Res == nil {
+		return true, "", nil
+	}
+	classes = append(classes, "dnssec-on")
+	filteredNow := o.Result != nil && o.Result.IsFiltered && !o.OrigKept
+	for i, ad := range o.CallAD {
+		// (the lookup of a block page given as a name is a request of the
+		// server's own, made outside processUpstream: no claim)
+		if !ad && !filteredNow {
+			return false, fmt.Sprintf("enable_dnssec is on but upstream request %d was sent without the AD bit", i), classes
+		}
+	}
+	wants := o.AD || o.DO
+	filtered := o.Result != nil && o.Result.IsFiltered
+	switch {
+	case o.ResAD && !wants:
+		return false, "the client asked with neither AD nor DO but the answer carries the AD bit", classes
+	case o.ResAD && (len(o.Calls) == 0 || !o.UpAD):
+		return false, fmt.Sprintf("the answer carries the AD bit but no upstream answer did (upstream calls %d, upstream AD %v)", len(o.Calls), o.UpAD), classes
+	case o.ResAD && filtered && o.OrigKept:
+		// (a safe-search verdict is "filtered" too, but its answer is the
+		// upstream's answer for the safe name)
+		return false, "the blocking answer that replaced an upstream answer carries the AD bit", classes
+	}
+	if wants {
+		classes = append(classes, "dnssec-client-wants-ad")
+	} else if o.UpAD && len(o.Calls) > 0 {
+		classes = append(classes, "dnssec-ad-cleared")
+	}
+	if o.ResAD {
+		classes = append(classes, "dnssec-ad-delivered")
+	}
+	return true, "", classes
 }
